@@ -183,6 +183,29 @@ def daemon_histories(ck, rb, drv, fails, mism):
             if not started:
                 fails.append(("sched:not-retried-when-due", obj(birth=birth, previous_attempt=t_attempt, model_retry=due))); ok = False; break
             t_attempt = due
+            if rnd == 0 and lifetime is None:
+                # a LATE attempt: the daemon was not poked until long after the due time; the next retry must be
+                # computed from the time of this attempt, not from the time it had been scheduled for
+                last = [c for c in R.cmds if c["rcpt"] == b"r@remote.example"]
+                R.service(0.2)                                       # the Z report for the attempt just started
+                due2 = int(vlib.run_lines(drv, ["retry %d %d 1" % (birth, t_attempt)])[0][0])
+                late = due2 + 5000
+                ncmd = len(R.cmds); setclock(late); poke(W)
+                for _ in range(8):
+                    R.service(0.1)
+                    if len(R.cmds) > ncmd: break
+                hist.append("clock %d (5000 s after the retry time %d): attempt started: %s" % (late, due2, len(R.cmds) > ncmd))
+                if len(R.cmds) > ncmd:
+                    R.service(0.3); n2 = len(R.cmds)
+                    due3 = int(vlib.run_lines(drv, ["retry %d %d 1" % (birth, late)])[0][0])
+                    poke(W); R.service(0.3); poke(W); R.service(0.3)
+                    burst = len(R.cmds) - n2
+                    hist.append("after the late attempt (deferred again) the model's next retry time is %d; further attempts while the clock still shows %d: %d" % (due3, late, burst))
+                    ck.evaluated(); ck.count("late_attempts")
+                    if burst > 0:
+                        fails.append(("sched:retried-before-backoff", obj(birth=birth, previous_attempt=late, model_retry=due3, note="retry time computed from the scheduled time instead of the attempt time")))
+                    t_attempt = late
+                    break
         R.kill()
 
 def main():
